@@ -355,6 +355,17 @@ def run_specs(op):
                 d, subs = g.compute_original_sfs_with_simplifications(b, params)
                 out.append({"sfs": copy.deepcopy(d["syrup_contract"]), "subs": copy.deepcopy(subs), "input": b.source_stack,
                             "to_optimize": b.instructions_to_optimize_plain(), "name": b.block_name})
+                if op.get("get_subblocks"):
+                    # the second entry point that reports sub-blocks (used by the predictor front-end), called as gasol_asm does
+                    ir = mods["sfs_generator.ir_block"]
+                    try:
+                        out[-1]["get_subblocks"] = copy.deepcopy(ir.get_subblocks(
+                            {"instructions": b.instructions_to_optimize_plain(), "input": b.source_stack},
+                            storage=params.split_storage, part=params.split_partition))
+                    except BaseException as e:
+                        if isinstance(e, procs.Budget):
+                            raise
+                        out[-1]["get_subblocks_exc"] = "%s: %s" % (type(e).__name__, str(e)[:200])
             except BaseException as e:
                 if isinstance(e, procs.Budget):
                     raise
